@@ -1197,6 +1197,8 @@ type frameDirState struct {
 	fecBad  bool
 	segs    map[uint32][]byte
 	log     frameDirLog
+	known   int             // the session's wireMtu when it is known exactly (0 while a SetMtu call is in flight)
+	lastEp  int             // epoch of the latest accepted SetMtu call that may have started
 	bound   int             // the MTU every datagram must honour right now
 	pending []frameMtuEvent // accepted SetMtu calls whose marker has not passed yet
 	events  []frameMtuEvent
@@ -1227,7 +1229,7 @@ func frameAnalyse(res *frameResult, ciph frameCipher, key []byte, cfg frameCfg, 
 			for _, p := range snd.oobSent {
 				d.oobSent[string(p)] = true
 			}
-			d.bound = IKCP_MTU_DEF // newUDPSession sets the default
+			d.bound, d.known = IKCP_MTU_DEF, IKCP_MTU_DEF // newUDPSession sets the default
 			snd.mu.Lock()
 			d.events = append([]frameMtuEvent(nil), snd.events...)
 			snd.mu.Unlock()
@@ -1236,7 +1238,7 @@ func frameAnalyse(res *frameResult, ciph frameCipher, key []byte, cfg frameCfg, 
 					d.pending = append(d.pending, ev)
 				}
 			}
-			d.log.Header = fmt.Sprintf("C %d.%s cipher=%d ns=%d fec=%d d=%d p=%d", cfg.ID, snd.name, ciph.class, ciph.ns, frameB2I(fecOn), cfg.D, cfg.P)
+			d.log.Header = fmt.Sprintf("C %d.%s cipher=%d ns=%d fec=%d d=%d p=%d w=%d", cfg.ID, snd.name, ciph.class, ciph.ns, frameB2I(fecOn), cfg.D, cfg.P, IKCP_MTU_DEF)
 			dirs[from+">"+to] = d
 		}
 	}
@@ -1270,6 +1272,19 @@ func frameAnalyse(res *frameResult, ciph frameCipher, key []byte, cfg frameCfg, 
 			res.violate("session-datagram-empty", fmt.Sprintf("%s handed an empty datagram to the PacketConn (datagram %d)", d.name, ci), detail())
 			continue
 		}
+		// for the model replay: from the moment an accepted SetMtu call may have started until its
+		// marker passes, the wire MTU postProcess compares parity with is not known exactly
+		for _, ev := range d.events {
+			if ev.Accepted && ev.CapIndex <= ci && ev.Epoch > d.lastEp {
+				d.lastEp = ev.Epoch
+				if d.known != 0 {
+					d.known = 0
+					if len(d.log.Lines) < logCap {
+						d.log.Lines = append(d.log.Lines, "W 0")
+					}
+				}
+			}
+		}
 		// (1) the independent decoder
 		res.Monitors["frame-layout"]++
 		fi, e := frameDecode(ciph, key, fecOn, c.data)
@@ -1284,6 +1299,12 @@ func frameAnalyse(res *frameResult, ciph frameCipher, key []byte, cfg frameCfg, 
 						for _, ev := range d.pending {
 							if ev.Epoch&0xffff == ep {
 								d.bound = ev.Bound
+								if ev.Epoch == d.lastEp { // no later call in flight: wireMtu is exactly this
+									d.known = ev.Bound
+									if len(d.log.Lines) < logCap {
+										d.log.Lines = append(d.log.Lines, fmt.Sprintf("W %d", ev.Bound))
+									}
+								}
 							}
 							if ev.Epoch > ep {
 								keep = append(keep, ev)
